@@ -2285,3 +2285,585 @@ func extra5C09Wait(c *Ctx) {
 	}
 	c.Expect(rule, "returns of the upload result in Wait", n, 1)
 }
+
+// ---------------------------------------------------------------------------------- C01 (table key)
+
+func init() {
+	prev := registry["C01"].Run
+	registry["C01"].Run = func(c *Ctx) { prev(c); ruleOneTableKey(c, "C01-R13") }
+	prev11 := registry["C11"].Run
+	registry["C11"].Run = func(c *Ctx) { prev11(c); ruleOneTableKey(c, "C11-R14") }
+}
+
+// ruleOneTableKey: every access to Scheduler.loaded names the runner the same way.
+func ruleOneTableKey(c *Ctx, rule string) {
+	c.Rule(rule, "the loaded table has one key: every index into, and delete from, Scheduler.loaded in package server is keyed by a model's ModelPath — Model.ModelPath itself or runnerRef.modelPath, which is only ever assigned from it — so the request that finishes is accounted to the runner it was given (a look-up keyed differently from the finish handler's subtracts one runner's completion from another: that runner's count reaches zero with a request in progress and the next expiry closes it)")
+	info := c.P.Pkgs["server"].TypesInfo
+	fLoaded := c.P.LookupField("server", "Scheduler", "loaded")
+	fMP := c.P.LookupField("server", "Model", "ModelPath")
+	fRP := c.P.LookupField("server", "runnerRef", "modelPath")
+	if fLoaded == nil || fMP == nil || fRP == nil {
+		c.Undecided(rule, "anchor:Scheduler.loaded / Model.ModelPath / runnerRef.modelPath", "-", "anchor lost")
+		return
+	}
+	keyOK := func(e ast.Expr) bool {
+		se, ok := ast.Unparen(e).(*ast.SelectorExpr)
+		if !ok {
+			return false
+		}
+		fv := core.FieldVar(info, se)
+		return fv == fMP || fv == fRP
+	}
+	n := 0
+	for _, f := range c.P.FuncsOf("server") {
+		if strings.HasSuffix(c.Pos(f.Body), "_test.go") {
+			continue
+		}
+		seq := 0
+		ast.Inspect(f.Body, func(m ast.Node) bool {
+			var key ast.Expr
+			switch x := m.(type) {
+			case *ast.IndexExpr:
+				if core.FieldVar(info, x.X) == fLoaded {
+					key = x.Index
+				}
+			case *ast.CallExpr:
+				if core.CalleeName(info, x) == "builtin.delete" && len(x.Args) == 2 && core.FieldVar(info, x.Args[0]) == fLoaded {
+					key = x.Args[1]
+				}
+			}
+			if key == nil {
+				return true
+			}
+			n++
+			seq++
+			c.Check(rule, f.Key()+" loaded-table access#"+itoa(seq), c.Pos(m), keyOK(key), "keyed by `"+core.ExprString(key)+"`, not by a ModelPath: the accesses to the table no longer agree on what names a runner")
+			return true
+		})
+		// runnerRef.modelPath is assigned only from Model.ModelPath
+		ast.Inspect(f.Body, func(m ast.Node) bool {
+			switch x := m.(type) {
+			case *ast.AssignStmt:
+				for i, l := range x.Lhs {
+					if core.FieldVar(info, l) == fRP && i < len(x.Rhs) {
+						c.Check(rule, f.Key()+" store:runnerRef.modelPath", c.Pos(x), keyOK(x.Rhs[i]), "runnerRef.modelPath must be a Model's ModelPath")
+					}
+				}
+			case *ast.KeyValueExpr:
+				if id, ok := x.Key.(*ast.Ident); ok && info.Uses[id] == fRP {
+					c.Check(rule, f.Key()+" init:runnerRef.modelPath", c.Pos(x), keyOK(x.Value), "runnerRef.modelPath must be a Model's ModelPath")
+				}
+			}
+			return true
+		})
+	}
+	c.Expect(rule, "accesses to Scheduler.loaded by key", n, 6)
+}
+
+// ---------------------------------------------------------------------------------- C12 (prune name)
+
+func init() {
+	prev := registry["C12"].Run
+	registry["C12"].Run = func(c *Ctx) { prev(c); extra5C12(c) }
+}
+
+func extra5C12(c *Ctx) {
+	rule := "C12-R11"
+	c.Rule(rule, "the start-up repair removes what it found: in PruneLayers the path given to os.Remove is filepath.Join(<the directory that was listed>, <the entry>.Name()) for the entry of the current iteration — the file's own name, not the digest spelling derived from it (sha256-… → sha256:…), which names no file: the remove fails with ENOENT, is only logged, and partial downloads, empty part files and upload temp files survive every restart (an empty part file makes every later pull of that layer fail with EOF)")
+	f := c.Fn(rule, "server", "PruneLayers")
+	if f == nil {
+		return
+	}
+	info := f.Info()
+	g := c.G(f)
+	var dirVar, listVar types.Object
+	for _, h := range g.FindCalls("os.ReadDir") {
+		call := h.Node.(*ast.CallExpr)
+		listVar = core.ResultVar(info, h.Top, call, 0)
+		if id, ok := ast.Unparen(call.Args[0]).(*ast.Ident); ok {
+			dirVar = info.Uses[id]
+		}
+	}
+	n := 0
+	for _, rm := range g.FindCalls("os.Remove", "os.RemoveAll") {
+		n++
+		call := rm.Node.(*ast.CallExpr)
+		ok, why := false, "the removed path is not filepath.Join(<listed directory>, <entry>.Name())"
+		for _, x := range expand(g, call.Args[0], 1) {
+			e, isE := x.(ast.Expr)
+			if !isE {
+				continue
+			}
+			j, isC := ast.Unparen(e).(*ast.CallExpr)
+			if !isC || core.CalleeName(info, j) != "path/filepath.Join" || len(j.Args) != 2 {
+				continue
+			}
+			dirOK := dirVar != nil && isIdentOf(info, j.Args[0], dirVar)
+			nameOK := false
+			if nc, isN := ast.Unparen(j.Args[1]).(*ast.CallExpr); isN && strings.HasSuffix(core.CalleeName(info, nc), "DirEntry.Name") && len(nc.Args) == 0 {
+				// the entry of the loop over the listing
+				recv := ast.Unparen(nc.Fun).(*ast.SelectorExpr).X
+				for _, rl := range rangeLoops(f) {
+					if vid, isV := rl.Stmt.Value.(*ast.Ident); isV && listVar != nil && isIdentOf(info, rl.Stmt.X, listVar) && isIdentOf(info, recv, info.Defs[vid]) && within(rl.Stmt, call) {
+						nameOK = true
+					}
+				}
+			}
+			if dirOK && nameOK {
+				ok = true
+			} else if !nameOK {
+				why = "the file name joined to the directory is `" + core.ExprString(j.Args[1]) + "`, not the listed entry's own Name()"
+			}
+		}
+		c.Check(rule, f.Key()+" direct-removal#"+itoa(n)+" names the listed file", c.Pos(call), ok, why)
+	}
+	c.Expect(rule, "direct removals in PruneLayers", n, 1)
+}
+
+// ---------------------------------------------------------------------------------- C15 (nil test and use; handler factories)
+
+func init() {
+	p := registry["C15"]
+	p.Pkgs = append(p.Pkgs, "openai")
+	prev := p.Run
+	p.Run = func(c *Ctx) { prev(c); extra5C15(c) }
+}
+
+func extra5C15(c *Ctx) {
+	rule := "C15-R9"
+	c.Rule(rule, "a runner's server handle is used where it was found alive: every method call through X.llama in package server (X a runnerRef) is made where X.llama != nil is known — on the path, or earlier in the same && / || chain — and the runner's refMu (or, at shutdown, the scheduler's loadedMu) is held without interruption from the test to the call: the unload sets llama to nil under refMu, so a test made while collecting the runners under loadedMu says nothing once refMu is taken later, and a nil dereference in the scheduler goroutine ends the server")
+	info := c.P.Pkgs["server"].TypesInfo
+	fLlama := c.P.LookupField("server", "runnerRef", "llama")
+	fRefMu := c.P.LookupField("server", "runnerRef", "refMu")
+	fLoadedMu := c.P.LookupField("server", "Scheduler", "loadedMu")
+	if fLlama == nil || fRefMu == nil || fLoadedMu == nil {
+		c.Undecided(rule, "anchor:runnerRef.llama/refMu, Scheduler.loadedMu", "-", "anchor lost")
+		return
+	}
+	isMuCall := func(n ast.Node, fv *types.Var, method string) bool {
+		found := false
+		core.InspectShallow(n, func(m ast.Node) bool {
+			if call, ok := m.(*ast.CallExpr); ok {
+				if se, isS := ast.Unparen(call.Fun).(*ast.SelectorExpr); isS && se.Sel.Name == method {
+					if inner, isI := ast.Unparen(se.X).(*ast.SelectorExpr); isI && core.FieldVar(info, inner) == fv {
+						found = true
+					}
+				}
+			}
+			return !found
+		})
+		return found
+	}
+	n := 0
+	for _, top := range c.P.FuncsOf("server") {
+		if strings.HasSuffix(c.Pos(top.Body), "_test.go") {
+			continue
+		}
+		for _, f := range append([]*core.Func{top}, top.Lits()...) {
+			g := c.G(f)
+			for _, h := range g.Find(func(m ast.Node) bool {
+				call, ok := m.(*ast.CallExpr)
+				if !ok {
+					return false
+				}
+				se, isS := ast.Unparen(call.Fun).(*ast.SelectorExpr)
+				if !isS {
+					return false
+				}
+				inner, isI := ast.Unparen(se.X).(*ast.SelectorExpr)
+				return isI && core.FieldVar(info, inner) == fLlama
+			}) {
+				call := h.Node.(*ast.CallExpr)
+				recv := ast.Unparen(ast.Unparen(call.Fun).(*ast.SelectorExpr).X).(*ast.SelectorExpr)
+				rs := core.ExprString(recv)
+				n++
+				// the nil test: CFG atoms plus short-circuit guards
+				atoms := g.AtomsAt(h.Loc)
+				var testLoc core.Loc
+				inExpr := false
+				if root := enclosingCond(f.Body, call); root != nil {
+					for _, a := range exprGuards(root, call) {
+						if x, eq, isNil := core.IsNilCheck(info, a.Expr); isNil && core.ExprString(x) == rs && (eq != a.Val) {
+							inExpr = true
+						}
+					}
+				}
+				known := inExpr
+				// unload clears Options together with llama (checked below), so a non-nil Options of the
+				// same runner under the same lock is a liveness test too
+				rsOpt := strings.TrimSuffix(rs, ".llama") + ".Options"
+				for _, a := range atoms {
+					if x, eq, isNil := core.IsNilCheck(info, a.Expr); isNil && (core.ExprString(x) == rs || core.ExprString(x) == rsOpt) && (eq != a.Val) {
+						known = true
+						for _, cb := range g.CondBlocks() {
+							if g.Dominates(g.CondLoc(cb.B), h.Loc) && strings.Contains(core.ExprString(cb.Cond), core.ExprString(a.Expr)) {
+								testLoc = g.CondLoc(cb.B)
+							}
+						}
+					}
+				}
+				ok, why := known, "no nil test of "+rs+" on the path"
+				if known && !inExpr && testLoc.Valid() {
+					// no release of refMu / loadedMu between the test and the call
+					for _, l := range g.Between(testLoc, h.Loc) {
+						nodes := g.Nodes(l.B)
+						if l.I < len(nodes) && (isMuCall(nodes[l.I], fRefMu, "Unlock") || isMuCall(nodes[l.I], fLoadedMu, "Unlock") || isMuCall(nodes[l.I], fRefMu, "Lock")) {
+							ok, why = false, "a lock is released or taken between the nil test and the call: the test is stale"
+						}
+					}
+				}
+				c.Check(rule, f.Key()+" call:"+rs+"."+ast.Unparen(call.Fun).(*ast.SelectorExpr).Sel.Name, c.Pos(call), ok, why)
+			}
+		}
+	}
+	c.Expect(rule, "method calls through runnerRef.llama", n, 4)
+	if uf := c.Fn(rule, "server", "runnerRef.unload"); uf != nil {
+		cleared := map[string]bool{}
+		ast.Inspect(uf.Body, func(m ast.Node) bool {
+			if as, ok := m.(*ast.AssignStmt); ok && len(as.Lhs) == 1 && len(as.Rhs) == 1 && core.ExprString(as.Rhs[0]) == "nil" {
+				cleared[selName(as.Lhs[0])] = true
+			}
+			return true
+		})
+		c.Check(rule, uf.Key()+" clears llama and Options together", c.Pos(uf.Decl), cleared["llama"] && cleared["Options"], "a non-nil Options is taken as proof of a live llama: unload must set both to nil")
+	}
+
+	rule = "C15-R10"
+	c.Rule(rule, "what a handler factory sets up once is shared by every request: a function literal returned as a gin.HandlerFunc (packages openai and server) does not write, take the address of, or call methods on a variable declared in the function that built it — request-scoped buffers and encoders belong inside the literal (hoisting the translation buffer of an OpenAI-compatible middleware into its constructor makes concurrent /v1 requests decode each other's bodies)")
+	nLit := 0
+	for _, pkg := range []string{"openai", "server"} {
+		p := c.P.Pkgs[pkg]
+		if p == nil {
+			c.Undecided(rule, "anchor:pkg:"+pkg, "-", "package not loaded")
+			continue
+		}
+		pinfo := p.TypesInfo
+		for _, f := range c.P.FuncsOf(pkg) {
+			if strings.HasSuffix(c.Pos(f.Body), "_test.go") || f.Type == nil || f.Type.Results == nil || len(f.Type.Results.List) != 1 {
+				continue
+			}
+			if t := pinfo.TypeOf(f.Type.Results.List[0].Type); t == nil || !strings.HasSuffix(t.String(), "gin.HandlerFunc") {
+				continue
+			}
+			core.InspectShallow(f.Body, func(m ast.Node) bool {
+				ret, ok := m.(*ast.ReturnStmt)
+				if !ok || len(ret.Results) != 1 {
+					return true
+				}
+				lit, isL := ast.Unparen(ret.Results[0]).(*ast.FuncLit)
+				if !isL {
+					return true
+				}
+				nLit++
+				bad := ""
+				captured := func(e ast.Expr) types.Object {
+					for {
+						switch x := ast.Unparen(e).(type) {
+						case *ast.Ident:
+							v, isV := pinfo.Uses[x].(*types.Var)
+							if isV && !v.IsField() && v.Pos() > f.Body.Pos() && v.Pos() < f.Body.End() && !(v.Pos() >= lit.Pos() && v.Pos() <= lit.End()) {
+								return v
+							}
+							return nil
+						case *ast.SelectorExpr:
+							e = x.X
+						case *ast.IndexExpr:
+							e = x.X
+						case *ast.StarExpr:
+							e = x.X
+						default:
+							return nil
+						}
+					}
+				}
+				ast.Inspect(lit.Body, func(k ast.Node) bool {
+					switch x := k.(type) {
+					case *ast.AssignStmt:
+						for _, l := range x.Lhs {
+							if o := captured(l); o != nil && x.Tok != token.DEFINE {
+								bad = o.Name() + " assigned at " + c.Pos(x)
+							}
+						}
+					case *ast.IncDecStmt:
+						if o := captured(x.X); o != nil {
+							bad = o.Name() + " changed at " + c.Pos(x)
+						}
+					case *ast.UnaryExpr:
+						if x.Op == token.AND {
+							if o := captured(x.X); o != nil {
+								bad = "&" + o.Name() + " at " + c.Pos(x)
+							}
+						}
+					case *ast.CallExpr:
+						if se, isS := ast.Unparen(x.Fun).(*ast.SelectorExpr); isS {
+							if o := captured(se.X); o != nil {
+								if sel := pinfo.Selections[se]; sel != nil && sel.Kind() == types.MethodVal && !strings.HasPrefix(o.Type().String(), "sync.") {
+									bad = o.Name() + "." + se.Sel.Name + "() at " + c.Pos(x)
+								}
+							}
+						}
+					}
+					return bad == ""
+				})
+				c.Check(rule, f.Key()+" returned handler keeps no shared mutable state", c.Pos(lit), bad == "", "the handler uses a variable of its factory: "+bad+" — one instance serves all concurrent requests")
+				return true
+			})
+		}
+	}
+	c.Expect(rule, "handler literals returned by factories", nLit, 5)
+}
+
+// ---------------------------------------------------------------------------------- C11 (estimate inputs, load-time options)
+
+func init() {
+	prev := registry["C11"].Run
+	registry["C11"].Run = func(c *Ctx) { prev(c); extra5C11(c) }
+}
+
+func extra5C11(c *Ctx) {
+	rule := "C11-R15"
+	c.Rule(rule, "the fit is predicted for what will be loaded: the projector list given to llm.EstimateGPULayers (third argument) is, at every call in packages llm and server, the model's ProjectorPaths — directly, or through a parameter that every call site fills with it; PredictServerFit takes the adapter list right next to it with the same type, and estimating with the adapters leaves a vision model's projector out of the prediction, so it is started beside loaded models without evicting anything")
+	fProj := c.P.LookupField("server", "Model", "ProjectorPaths")
+	est := c.P.LookupFunc("llm", "EstimateGPULayers")
+	if fProj == nil || est == nil {
+		c.Undecided(rule, "anchor:server.Model.ProjectorPaths / llm.EstimateGPULayers", "-", "anchor lost")
+	} else {
+		var all []*core.Func
+		for _, pkg := range []string{"llm", "server"} {
+			for _, f := range c.P.FuncsOf(pkg) {
+				if !strings.HasSuffix(c.Pos(f.Body), "_test.go") {
+					all = append(all, f)
+					all = append(all, f.Lits()...)
+				}
+			}
+		}
+		var isProjectors func(f *core.Func, e ast.Expr, depth int) (bool, string)
+		isProjectors = func(f *core.Func, e ast.Expr, depth int) (bool, string) {
+			info := f.Info()
+			if se, ok := ast.Unparen(e).(*ast.SelectorExpr); ok {
+				if core.FieldVar(info, se) == fProj {
+					return true, ""
+				}
+				return false, "`" + core.ExprString(e) + "` is not a model's ProjectorPaths"
+			}
+			id, ok := ast.Unparen(e).(*ast.Ident)
+			if !ok || depth > 3 {
+				return false, "`" + core.ExprString(e) + "` cannot be traced to ProjectorPaths"
+			}
+			o := info.Uses[id]
+			// a parameter of the enclosing declared function: look at its call sites
+			var decl *core.Func
+			pi := -1
+			for _, cand := range all {
+				if cand.Lit != nil || cand.Obj == nil {
+					continue
+				}
+				for i := 0; ; i++ {
+					p := paramAt(cand, i)
+					if p == nil {
+						break
+					}
+					if p == o {
+						decl, pi = cand, i
+					}
+				}
+			}
+			if decl == nil {
+				return false, "`" + id.Name + "` is a local, not the projector list of the model"
+			}
+			sites := 0
+			for _, caller := range all {
+				for _, call := range core.Calls(caller.Body, false) {
+					fo, _ := core.Callee(caller.Info(), call).(*types.Func)
+					if fo == nil || fo.FullName() != decl.Obj.FullName() || pi >= len(call.Args) {
+						continue
+					}
+					sites++
+					if ok, why := isProjectors(caller, call.Args[pi], depth+1); !ok {
+						return false, "through parameter " + id.Name + " of " + decl.Name + ": " + why
+					}
+				}
+			}
+			// calls through a function-valued field that holds the function (newServerFn: llm.NewLlamaServer)
+			holders := map[*types.Var]bool{}
+			for _, caller := range all {
+				ci := caller.Info()
+				ast.Inspect(caller.Body, func(m ast.Node) bool {
+					var fieldE, val ast.Expr
+					switch x := m.(type) {
+					case *ast.KeyValueExpr:
+						fieldE, val = x.Key, x.Value
+					case *ast.AssignStmt:
+						if len(x.Lhs) == 1 && len(x.Rhs) == 1 {
+							fieldE, val = x.Lhs[0], x.Rhs[0]
+						}
+					}
+					if fieldE == nil {
+						return true
+					}
+					var vo types.Object
+					switch v := ast.Unparen(val).(type) {
+					case *ast.Ident:
+						vo = ci.Uses[v]
+					case *ast.SelectorExpr:
+						vo = ci.Uses[v.Sel]
+					}
+					if fo, isF := vo.(*types.Func); isF && fo.FullName() == decl.Obj.FullName() {
+						switch fe := ast.Unparen(fieldE).(type) {
+						case *ast.Ident:
+							if fv, isV := ci.Uses[fe].(*types.Var); isV && fv.IsField() {
+								holders[fv] = true
+							}
+						case *ast.SelectorExpr:
+							if fv := core.FieldVar(ci, fe); fv != nil {
+								holders[fv] = true
+							}
+						}
+					}
+					return true
+				})
+			}
+			for _, caller := range all {
+				for _, call := range core.Calls(caller.Body, false) {
+					se, isS := ast.Unparen(call.Fun).(*ast.SelectorExpr)
+					if !isS || !holders[core.FieldVar(caller.Info(), se)] || pi >= len(call.Args) {
+						continue
+					}
+					sites++
+					if ok, why := isProjectors(caller, call.Args[pi], depth+1); !ok {
+						return false, "through parameter " + id.Name + " of " + decl.Name + " (called through a function field): " + why
+					}
+				}
+			}
+			if sites == 0 {
+				return false, "parameter " + id.Name + " of " + decl.Name + " has no call site in llm/server"
+			}
+			return true, ""
+		}
+		n := 0
+		for _, f := range all {
+			for _, call := range core.Calls(f.Body, false) {
+				fo, _ := core.Callee(f.Info(), call).(*types.Func)
+				if fo == nil || fo.FullName() != est.Obj.FullName() || len(call.Args) < 3 {
+					continue
+				}
+				n++
+				ok, why := isProjectors(f, call.Args[2], 0)
+				c.Check(rule, f.Key()+" EstimateGPULayers#"+itoa(n)+" gets the model's projectors", c.Pos(call), ok, why)
+			}
+		}
+		c.Expect(rule, "calls of EstimateGPULayers", n, 3)
+	}
+
+	rule = "C11-R16"
+	c.Rule(rule, "what a runner is started with is what runners are compared by: every field of api.Options that llm.NewLlamaServer reads is declared in api.Runner, the embedded struct needsReload compares between the loaded runner and the request (an option moved to the run-time half of Options keeps compiling through field promotion, still becomes a process argument at start, and is no longer seen by the compatibility check: a request with another num_thread is served by the runner started with the old one)")
+	f := c.Fn(rule, "llm", "NewLlamaServer")
+	if f == nil {
+		return
+	}
+	info := f.Info()
+	seen := map[string]bool{}
+	n := 0
+	ast.Inspect(f.Body, func(m ast.Node) bool {
+		se, ok := m.(*ast.SelectorExpr)
+		if !ok {
+			return true
+		}
+		t := info.TypeOf(se.X)
+		if t == nil || core.ObjNameOfType(t) != "api.Options" {
+			return true
+		}
+		sel := info.Selections[se]
+		if sel == nil || sel.Kind() != types.FieldVal {
+			return true
+		}
+		fv := sel.Obj().(*types.Var)
+		if seen[fv.Name()] || fv.Name() == "Runner" {
+			return true
+		}
+		seen[fv.Name()] = true
+		n++
+		// promoted through the embedded Runner: the selection path has two steps
+		inRunner := len(sel.Index()) == 2
+		if inRunner {
+			if st, isS := t.Underlying().(*types.Struct); isS {
+				inRunner = st.Field(sel.Index()[0]).Name() == "Runner"
+			} else if p, isP := t.Underlying().(*types.Pointer); isP {
+				if st, isS := p.Elem().Underlying().(*types.Struct); isS {
+					inRunner = st.Field(sel.Index()[0]).Name() == "Runner"
+				}
+			}
+		}
+		c.Check(rule, f.Key()+" load-time option "+fv.Name()+" is a field of api.Runner", c.Pos(se), inRunner, "NewLlamaServer starts the runner with opts."+fv.Name()+", which is not part of the struct needsReload compares")
+		return true
+	})
+	c.Expect(rule, "fields of api.Options read by NewLlamaServer", n, 6)
+}
+
+// ---------------------------------------------------------------------------------- C13 (printers)
+
+func init() {
+	prev := registry["C13"].Run
+	registry["C13"].Run = func(c *Ctx) { prev(c); extra5C13(c) }
+}
+
+func extra5C13(c *Ctx) {
+	rule := "C13-R9"
+	c.Rule(rule, "a name prints as it was accepted: in Name.String, Name.DisplayShortest and Name.Filepath of types/model a part of the name (Host, Namespace, Model, Tag, RawDigest) is handed only to a strings.Builder write, to filepath.Join, to string concatenation or to a comparison — never to a function that can change it (strings.ToLower, ToUpper, Map, Title, Replace, Trim…); the handlers pass the printed name back to the legacy parser, so a printer that lower-cases the host makes a stored model under Registry.Example.COM/… resolve to a manifest path that does not exist")
+	info := c.P.Pkgs[modelNamePkg].TypesInfo
+	allowed := map[string]bool{"strings.Builder.WriteString": true, "path/filepath.Join": true, "strings.EqualFold": true, "builtin.len": true, "strings.Builder.Grow": true}
+	n := 0
+	for _, name := range []string{"Name.String", "Name.DisplayShortest", "Name.Filepath"} {
+		f := c.Fn(rule, modelNamePkg, name)
+		if f == nil {
+			continue
+		}
+		recv := recvObj(f)
+		isPart := func(e ast.Expr) bool {
+			se, ok := ast.Unparen(e).(*ast.SelectorExpr)
+			if !ok {
+				return false
+			}
+			id, isId := ast.Unparen(se.X).(*ast.Ident)
+			if !isId || info.Uses[id] != recv {
+				return false
+			}
+			fv := core.FieldVar(info, se)
+			return fv != nil && isStringType(fv.Type())
+		}
+		bad := ""
+		ast.Inspect(f.Body, func(m ast.Node) bool {
+			call, ok := m.(*ast.CallExpr)
+			if !ok {
+				return true
+			}
+			uses := false
+			for _, a := range call.Args {
+				ast.Inspect(a, func(k ast.Node) bool {
+					if e, isE := k.(ast.Expr); isE && isPart(e) {
+						uses = true
+					}
+					// a nested call is judged on its own
+					if _, isC := k.(*ast.CallExpr); isC && k != ast.Node(a) {
+						return false
+					}
+					return true
+				})
+			}
+			if !uses {
+				return true
+			}
+			n++
+			nm := core.CalleeName(info, call)
+			if tv, isT := info.Types[call.Fun]; isT && tv.IsType() {
+				return true // conversion
+			}
+			if !allowed[nm] && !strings.HasPrefix(nm, modelNamePkg+".") {
+				bad = nm + " at " + c.Pos(call)
+			}
+			return true
+		})
+		c.Check(rule, f.Key()+" prints the parts unchanged", c.Pos(f.Decl), bad == "", "a part of the name goes through "+bad)
+	}
+	c.Expect(rule, "calls that receive a part of the name in the printers", n, 8)
+}
